@@ -696,7 +696,7 @@ def run_case(ctx, cirq, cfg, circuit, kind, deep, ignore, checks, case_no):
         miss = multiset_missing(ign_in, ign_out)
         if miss:
             only_sub = all(isinstance(o.untagged, cirq.CircuitOperation) for o in miss)
-            ctx.violation(f'{cfg.name}:ignored-op-touched' + (':subcircuit-unrolled' if only_sub and not multiset_missing(flatten_ops(cirq, cirq.Circuit(miss)), flatten_ops(cirq, out)) else ''), f'{cfg.id}: operation(s) carrying the ignored tag were changed or removed: {miss[:3]!r}; {desc}\noutput:\n{out}',
+            ctx.violation(f'{cfg.name}:ignored-op-touched' + (':subcircuit-unrolled' if only_sub else ''), f'{cfg.id}: operation(s) carrying the ignored tag were changed or removed: {miss[:3]!r}; {desc}\noutput:\n{out}',
                           dict(kind='ignored', missing=repr(miss), output=repr(out), **rep))
     # (iv) sub-circuits are only rewritten when deep=True
     if not deep and not cfg.sub_exempt:
@@ -737,7 +737,8 @@ def run_case(ctx, cirq, cfg, circuit, kind, deep, ignore, checks, case_no):
             else:
                 pairs = trace_pairs(cirq, circuit, out, deep, cfg.same)
             expr = ' && '.join(f'({trace_terms(cirq, a, b, s)})' for a, b, s in pairs)
-            checks.append(dict(case=case_no, what='trace', stream=f'{cfg.id}:trace', expr=expr, cfg=cfg, rep=dict(rep, output=repr(out), output_diagram=str(out)), desc=desc))
+            checks.append(dict(case=case_no, what='trace', stream=f'{cfg.id}:trace', expr=expr, cfg=cfg, desc=desc,
+                               rep=dict(rep, output=repr(out), output_diagram=str(out), root_cause=root_cause(cirq, cfg, circuit, out, deep))))
         except Exception as e:
             ctx.mark_broken(f'harness:trace:{cfg.id}', repr(e))
     feats = features(cirq, circuit)
@@ -805,7 +806,9 @@ def report(ctx, checks, failed):
             ctx.disagree(f'validation:{c["stream"]}', what, sig, what, dict(kind='semantics', **c['rep']))
         elif 'trace' in d:
             c = d['trace']
-            ctx.mark_broken(f'validation:{c["stream"]}', f'{c["cfg"].id}: output is not trace equivalent to the input (semantics agree numerically); {c["desc"]}\noutput:\n{c["rep"]["output_diagram"][:600]}')
+            what = f'{c["cfg"].id}: output is not trace equivalent to the input (dependent operations exchanged; the semantics of this instance agree numerically); {c["desc"]}\noutput:\n{c["rep"]["output_diagram"][:600]}'
+            if ctx.violation(f'{c["cfg"].name}:trace:{signature_features(c["rep"])}', what, dict(kind='trace', **c['rep']), found_input=False) != 'known':
+                ctx.mark_broken(f'validation:{c["stream"]}', what)
 
 
 def signature_features(rep):
@@ -877,6 +880,19 @@ def root_cause(cirq, cfg, circuit, out, deep):
             if gone:
                 f.append('gateless-op-in-cphase-moment-dropped')
                 break
+    if cfg.cat == 'reorder':
+        ref = cfg.reference(circuit, deep) if cfg.reference else ops_in
+        ref = flatten_ops(cirq, cirq.Circuit(ref)) if cfg.reference else ref
+        same = cfg.same
+        def proj(ops, pred):
+            return [o.untagged if same is eq_untagged else o for o in ops if pred(o)]
+        qubits = {q for o in ref for q in o.qubits}
+        if any(proj(ref, lambda o: q in o.qubits) != proj(ops_out, lambda o: q in o.qubits) for q in qubits):
+            f.append('per-qubit-order-changed')
+        keys = {k for o in ref for k in cirq.measurement_key_objs(o) | cirq.control_keys(o)}
+        touches = lambda k: (lambda o: k in cirq.measurement_key_objs(o) or k in cirq.control_keys(o))
+        if any(proj(ref, touches(k)) != proj(ops_out, touches(k)) for k in keys) and 'per-key-measurement-order-changed' not in f:
+            f.append('per-key-order-changed')
     if cfg.name in ('expand_composite', 'optimize_for_target_gateset', 'map_operations', 'map_operations_and_unroll'):
         g = decompose_defect(cirq, ops_in)
         if g:
